@@ -297,6 +297,8 @@ func (x *Exec) modOfBlocks(blocks []*ssa.BasicBlock, depth int) *ModSet {
 				for _, f := range familiesOf(RElem, el) {
 					m.AllocFams[f.Name] = f
 				}
+			case *ssa.MakeChan:
+				m.Ctr = true
 			case *ssa.MakeMap:
 				m.Ctr = true
 				m.Maps[mapKey(in.Type())] = true
@@ -312,7 +314,7 @@ func (x *Exec) modOfBlocks(blocks []*ssa.BasicBlock, depth int) *ModSet {
 			case *ssa.MakeClosure:
 				m.Ctr = true
 			case *ssa.Select:
-				for _, g := range []string{"SEL.idx", "SEL.last"} {
+				for _, g := range []string{"SEL.idx", "SEL.last", "SENT.n", "SENT.ch", "SENT.msg"} {
 					if x.isGhost(g) {
 						m.Ghosts[g] = true
 					}
